@@ -88,6 +88,16 @@ Theorem C14_row_count_metadata_only : forall (E : env) (st : store) (o : opts),
 Proof. exact row_count_trace. Qed.
 Print Assumptions C14_row_count_metadata_only.
 
+(* The outcome of a read depends only on the store at the time of the read, not on earlier reads through the
+   same handle: whatever the handle read before (and whatever the store looked like then), the last read of a
+   session is read_current on the store as it is now -- so C14_fail_closed / C14_checksum / C14_never_partial
+   apply to it unchanged.  (True by construction of the model, which gives a handle no read state; that the CODE
+   has none is what the same-handle correspondence and oracle observe on every run.) *)
+Theorem C14_history_independent : forall (E : env) (history : list (store * api * opts)) (st : store) (a : api) (o : opts) (d : result),
+  last (read_session E (history ++ [(st, a, o)])) d = read_current E st a o.
+Proof. exact history_independent. Qed.
+Print Assumptions C14_history_independent.
+
 (* The model does not raise without cause (so the theorems above are not satisfied by a pipeline that
    always fails): with no transient fault anywhere, metadata that resolves, a complete answer on the
    specification side and recorded checksums that match, every API returns exactly that answer. *)
